@@ -88,6 +88,13 @@ func (rl *Shell) Readline() (string, error) {
 		// the macro engine has fed some keys in bulk when running one.
 		core.WaitAvailableKeys(rl.Keys, rl.Config)
 
+		// The terminal input has ended or failed: there is nothing
+		// left to wait for, return what we have along with the error.
+		if err := core.InputClosed(rl.Keys); err != nil {
+			rl.Display.AcceptLine()
+			return string(*rl.line), err
+		}
+
 		// 1 - Local keymap (Completion/Isearch/Vim operator pending).
 		bind, command, prefixed := keymap.MatchLocal(rl.Keymap)
 		if prefixed {
